@@ -63,6 +63,9 @@ def check(run: Run) -> None:
         fi = cls.methods.get(name)
         if fi is None:
             raise AnalysisError(f"anchor vanished: simplify_chained_calls.{name}")
+        from ..normalise import unrolled
+
+        fi = unrolled(m, fi)
         fa = ctx.analysis(fi)
         nodep = ("param", fi.pos_params[1])
         raw = ("attr", nodep, attr_of_value)
@@ -99,7 +102,7 @@ def check(run: Run) -> None:
         run.notes.setdefault("dispatch_kinds", {})[name] = sorted(kinds)
 
     # ---------------- R3
-    vs = cls.methods["visit_Subscript"]
+    vs = unrolled(m, cls.methods["visit_Subscript"])
     from ..visitors import projection_handlers
 
     hmap, _t = projection_handlers(m, ctx, cls, vs)
